@@ -268,6 +268,13 @@ func (f *Footer) doLoadSegments(options *StoreOptions, fref *FileRef,
 	mrefs []*mmapRef) (mrefsSoFar []*mmapRef, err error) {
 	// Recursively load the childFooters first.
 	for _, childFooter := range f.ChildFooters {
+		if childFooter.refs <= 0 {
+			// A child footer that was just unmarshalled: like the child
+			// footers built by persistence and compaction, it starts
+			// with the ref-count that its parent footer holds on it.
+			childFooter.refs = 1
+		}
+
 		mrefs, err = childFooter.doLoadSegments(options, fref, mrefs)
 		if err != nil {
 			return mrefs, err
